@@ -1,0 +1,102 @@
+//! Verification hooks (only compiled with `--cfg aquatic_verif`)
+//!
+//! Process-global registry used by external runtime monitors: named probe
+//! points, event counters and a mock whole-second clock. With no handler
+//! registered, a probe costs one atomic load.
+
+use std::collections::BTreeMap;
+use std::sync::atomic::{AtomicBool, AtomicU64, Ordering};
+use std::sync::{Arc, Mutex, RwLock};
+
+/// Probe handler return value: continue normally
+pub const ACTION_CONTINUE: u32 = 0;
+/// Probe handler return value: call site should return `Ok(())` early (where supported)
+pub const ACTION_RETURN_OK: u32 = 1;
+/// Probe handler return value: call site should return an error early (where supported)
+pub const ACTION_RETURN_ERR: u32 = 2;
+
+pub type ProbeHandler = dyn Fn(&str) -> u32 + Send + Sync + 'static;
+
+static HANDLER_SET: AtomicBool = AtomicBool::new(false);
+static HANDLER: RwLock<Option<Arc<ProbeHandler>>> = RwLock::new(None);
+
+static COUNTERS: Mutex<BTreeMap<String, u64>> = Mutex::new(BTreeMap::new());
+
+const CLOCK_SET_BIT: u64 = 1 << 63;
+static CLOCK: AtomicU64 = AtomicU64::new(0);
+
+/// Register (or clear) the process-wide probe handler
+pub fn set_probe_handler(handler: Option<Arc<ProbeHandler>>) {
+    let mut guard = HANDLER.write().unwrap_or_else(|e| e.into_inner());
+
+    HANDLER_SET.store(handler.is_some(), Ordering::SeqCst);
+
+    *guard = handler;
+}
+
+/// Named probe point. The handler may sleep, park the thread, panic or abort.
+///
+/// The handler is called without any registry lock held.
+#[inline]
+pub fn probe(name: &str) -> u32 {
+    if !HANDLER_SET.load(Ordering::Relaxed) {
+        return ACTION_CONTINUE;
+    }
+
+    let handler = HANDLER
+        .read()
+        .unwrap_or_else(|e| e.into_inner())
+        .as_ref()
+        .cloned();
+
+    match handler {
+        Some(handler) => handler(name),
+        None => ACTION_CONTINUE,
+    }
+}
+
+/// Increment named event counter
+pub fn count(name: &str) {
+    let mut counters = COUNTERS.lock().unwrap_or_else(|e| e.into_inner());
+
+    if let Some(c) = counters.get_mut(name) {
+        *c += 1;
+    } else {
+        counters.insert(name.to_string(), 1);
+    }
+}
+
+/// Read named event counter
+pub fn counter(name: &str) -> u64 {
+    COUNTERS
+        .lock()
+        .unwrap_or_else(|e| e.into_inner())
+        .get(name)
+        .copied()
+        .unwrap_or(0)
+}
+
+/// Snapshot of all event counters
+pub fn counters() -> BTreeMap<String, u64> {
+    COUNTERS.lock().unwrap_or_else(|e| e.into_inner()).clone()
+}
+
+/// Set (or clear) mock clock, in whole seconds since server start
+pub fn set_clock(seconds: Option<u32>) {
+    match seconds {
+        Some(s) => CLOCK.store(CLOCK_SET_BIT | u64::from(s), Ordering::SeqCst),
+        None => CLOCK.store(0, Ordering::SeqCst),
+    }
+}
+
+/// Mock clock value, if set
+#[inline]
+pub fn clock() -> Option<u32> {
+    let v = CLOCK.load(Ordering::SeqCst);
+
+    if v & CLOCK_SET_BIT != 0 {
+        Some(v as u32)
+    } else {
+        None
+    }
+}
